@@ -25,9 +25,9 @@ Print Assumptions c31_witness.
    of every lookup of every history is empty, or what an earlier store allows whose
    file id is the same or has the same needle key; "allows" is the property's
    [expected] (the answer has at least the minimum size and is exactly the stored
-   bytes / the leading [len] bytes of the window) whenever the minimum size is
-   below 2^63, and the stored bytes / the truncated window otherwise; nothing is
-   claimed for a GetChunkSlice whose offset is 2^63 or more (finding 2). *)
+   bytes / the leading [len] bytes of the window), for EVERY minimum size, offset
+   and length (the former findings 1 and 2 — sizes and offsets from 2^63 on — are
+   repaired: such lookups miss, see c31_huge_* below). *)
 Theorem c31_transparent_modulo_key : forall p ops,
   all_from explained [] ops (run p init_state ops) = true.
 Proof. exact explained_full. Qed.
@@ -35,45 +35,68 @@ Print Assumptions c31_transparent_modulo_key.
 
 (* PARTIAL, per lookup (no hypothesis on the history): the property's own statement
    holds at every lookup that is not preceded by a store for ANOTHER file id with
-   the same needle key and whose minimum size is below 2^63. *)
+   the same needle key. *)
 Theorem c31_transparent_partial_step : forall p ops,
   all_from narrow_answer [] ops (run p init_state ops) = true.
 Proof. exact transparent_narrow. Qed.
 Print Assumptions c31_transparent_partial_step.
 
 Theorem c31_narrow_answer_spec : forall stored o r,
-  narrow_answer stored o r = true -> alias_before stored o = false -> op_big o = false ->
+  narrow_answer stored o r = true -> alias_before stored o = false ->
   transparent_answer stored o r = true.
 Proof. exact narrow_spec. Qed.
 Print Assumptions c31_narrow_answer_spec.
 
-(* PARTIAL, history-wide: for every history in which no two distinct file ids share
-   a needle key (which one SeaweedFS cluster guarantees: C13) and every minimum size
-   is below 2^63. *)
+(* PARTIAL, history-wide (the only remaining hypothesis is the trigger of finding
+   0): for every history in which no two distinct file ids share a needle key (which
+   one SeaweedFS cluster guarantees: C13) — every minimum size, offset and length. *)
 Theorem c31_transparent_partial : forall p ops,
-  keys_unique ops = true -> no_big ops = true ->
+  keys_unique ops = true ->
   transparent_from [] ops (run p init_state ops) = true.
 Proof. exact transparent_partial. Qed.
 Print Assumptions c31_transparent_partial.
 
-(* unique keys alone are not enough (finding 1): int(minSize) is negative from 2^63
-   on, so GetChunk(id, 2^63) returns a 5-byte chunk *)
-Theorem c31_unique_keys_refuted : ~ transparent_unique_keys.
-Proof. exact unique_keys_refuted. Qed.
-Print Assumptions c31_unique_keys_refuted.
+(* The repaired conversions (former findings 1 and 2, commit b3a266ba): a lookup whose
+   minimum size, or whose offset + length, is 2^63 or more misses in every tier,
+   whatever the cache holds — in particular for a slice offset or length from 2^63
+   on; the guard of doGetChunkSlice (wrapped uint64 sum below the offset or above
+   math.MaxInt64) is exactly that condition. *)
+Theorem c31_huge_get_misses : forall p st md f m,
+  two63 <= m -> get_with p st md f m = [].
+Proof. exact huge_get_misses. Qed.
+Print Assumptions c31_huge_get_misses.
 
+Theorem c31_slice_guard_spec : forall off len, off < two64 -> len < two64 ->
+  slice_guard off len = (two63 <=? off + len).
+Proof. exact slice_guard_spec. Qed.
+Print Assumptions c31_slice_guard_spec.
+
+Theorem c31_huge_slice_misses : forall p st md f off len,
+  off < two64 -> len < two64 -> two63 <= off + len -> get_slice_with p st md f off len = [].
+Proof. exact huge_slice_misses. Qed.
+Print Assumptions c31_huge_slice_misses.
+
+Theorem c31_huge_offset_misses : forall p st md f off len,
+  off < two64 -> len < two64 -> two63 <= off \/ two63 <= len -> get_slice_with p st md f off len = [].
+Proof. exact huge_offset_misses. Qed.
+Print Assumptions c31_huge_offset_misses.
+
+(* the former witnesses: GetChunk(id, 2^63) and GetChunkSlice(id, 1, 2^63-1) on a
+   cached 5-byte chunk miss, a plain lookup still hits *)
 Theorem c31_witness1 :
-  keys_unique w1_ops = true /\ no_big w1_ops = false /\
-  run w1_params init_state w1_ops = [[]; [[104; 101; 108; 108; 111]]].
+  keys_unique w1_ops = true /\ hist_ok w1_ops = true /\
+  run w1_params init_state w1_ops = [[]; [[]]; [[]]; [[104; 101; 108; 108; 111]]] /\
+  transparent_from [] w1_ops (run w1_params init_state w1_ops) = true.
 Proof. exact witness1_facts. Qed.
 Print Assumptions c31_witness1.
 
-(* finding 2: a slice offset from 2^63 on is a negative int(offset): the memory
-   tier panics ([panic_mark]), a disk tier returns bytes in front of the chunk *)
+(* GetChunkSlice(id, 2^64-1, 2) (used to panic in the memory tier) and, after a
+   restart, GetChunkSlice(id, 2^64-4, 6) (used to return bytes in front of the chunk)
+   miss with and without the memory entry *)
 Theorem c31_witness2 :
   keys_unique w2_ops = true /\ hist_ok w2_ops = true /\
-  run w2_params init_state w2_ops = [[]; []; [[0; 88]; panic_mark]; []; [[101; 0; 0; 0; 88; 89]]] /\
-  transparent_from [] w2_ops (run w2_params init_state w2_ops) = false.
+  run w2_params init_state w2_ops = [[]; []; [[]; []]; []; [[]]; [[88; 89; 90]]] /\
+  transparent_from [] w2_ops (run w2_params init_state w2_ops) = true.
 Proof. exact witness2_facts. Qed.
 Print Assumptions c31_witness2.
 
@@ -81,7 +104,7 @@ Print Assumptions c31_witness2.
    [length] bytes, the result is tested against offset + length): the cache is
    dead for such reads, hence trivially transparent *)
 Theorem c31_slice_offset_dead : forall p st md f off len,
-  0 < off -> off + len < two63 -> get_slice_with p st md f off len = [].
+  0 < off -> get_slice_with p st md f off len = [].
 Proof. exact slice_dead. Qed.
 Print Assumptions c31_slice_offset_dead.
 
@@ -95,7 +118,7 @@ Print Assumptions c31_invariant_step.
 (* The correspondence relation: an implementation answer is accepted iff the
    model admits it; the answer with the memory entry evicted is always admitted;
    every accepted answer is explained / transparent at clean lookups; under the
-   history-wide hypotheses every accepted answer is transparent. *)
+   history-wide hypothesis (unique keys) every accepted answer is transparent. *)
 Theorem c31_miss_admitted : forall p st f m,
   In (get_with p st None f m) (answers p st (Get f m)).
 Proof. exact miss_admitted. Qed.
@@ -108,22 +131,27 @@ Proof. exact admitted_explained. Qed.
 Print Assumptions c31_admitted_explained.
 
 Theorem c31_admitted_hit_is_spec : forall p ops impl,
-  keys_unique ops = true -> no_big ops = true ->
+  keys_unique ops = true ->
   admitted_all ops (run p init_state ops) impl = true ->
   impl_transparent [] ops impl = true.
 Proof. exact admitted_hit_is_spec. Qed.
 Print Assumptions c31_admitted_hit_is_spec.
 
 (* The check's trigger is exact: a failure the model reproduces is always labelled
-   with finding 0, 1 or 2 AT THE FAILING LOOKUP (the alias store / the minimum size
-   from 2^63 on must explain that very answer; finding 2 needs the slice offset of
-   that lookup to be 2^63 or more); anything else gets no trigger. *)
+   with finding 0 AT THE FAILING LOOKUP (the alias store must explain that very
+   answer); anything else gets no trigger.  The trigger emits no other number
+   (1 and 2 belonged to the repaired findings). *)
 Theorem c31_trigger_total : forall p ops impl,
   admitted_all ops (run p init_state ops) impl = true ->
   Nat.leb (List.length ops) (List.length impl) = true ->
   impl_transparent [] ops impl = false -> trigger ops impl <> None.
 Proof. exact trigger_total. Qed.
 Print Assumptions c31_trigger_total.
+
+Theorem c31_trigger_only_zero : forall ops impl,
+  trigger ops impl = None \/ trigger ops impl = Some 0.
+Proof. exact trigger_only_zero. Qed.
+Print Assumptions c31_trigger_only_zero.
 
 (* a fid whose stores all carry the same contents: the answer is what THAT content
    allows (the disk tiers can hold stale contents of a file id: the statement above
@@ -144,7 +172,7 @@ Example c31_example :
               Store c [20; 21; 22];
               Restart [(0, true); (1, true)] [(0, true); (1, true); (2, true)] [(0, true); (1, true)];
               Get a 1; Get b 4; Get c 1; GetSlice b 0 3] in
-  keys_unique ops = true /\ no_big ops = true /\ hist_ok ops = true /\
+  keys_unique ops = true /\ hist_ok ops = true /\
   run p init_state ops = [[]; []; []; []; [[]]; [[10; 11; 12; 13; 14; 15; 16; 17; 18; 19]]; [[]]; [[10; 11; 12]]].
 Proof. exact example_facts. Qed.
 Print Assumptions c31_example.
